@@ -288,7 +288,39 @@ func eachSlowProducer(emit func(xferCase)) {
 	}
 }
 
+// eachDialAndBadRequest: Transfer.In dialling itself (a listening harness / nobody listening) and
+// requests that cannot be signed or encoded.
+func eachDialAndBadRequest(emit func(xferCase)) {
+	for _, sh := range shapes(4) {
+		n := len(sh.flat())
+		for _, ts := range []*tsigSpec{nil, enumKey} {
+			c := sh
+			c.Sizes = someSizes(n)[len(someSizes(n))-1]
+			c.Tsig = ts
+			c.Sender = "harness"
+			for _, d := range []string{"tcp", "refused"} {
+				x := c
+				x.Dial = d
+				emit(x)
+			}
+			x := c
+			x.Dial = "tcp"
+			x.Fault = faultSpec{Kind: "cut", K: 2 + len(packEnvelope(c, c.envelopes()[0])) + c.tsigRRLen()}
+			emit(x)
+			for _, b := range []string{"nokey", "badalg", "longlabel"} {
+				if ts == nil && b != "longlabel" {
+					continue
+				}
+				y := c
+				y.BadRequest = b
+				emit(y)
+			}
+		}
+	}
+}
+
 func init() {
+	pbt.RegisterEnum(pbt.Enum[xferCase]{Name: "dial-and-bad-request", Each: eachDialAndBadRequest, Check: checkXfer})
 	pbt.RegisterEnum(pbt.Enum[xferCase]{Name: "slow-producer", Each: eachSlowProducer, Check: checkXfer})
 	pbt.RegisterEnum(pbt.Enum[xferCase]{Name: "ixfr-datagram", Each: eachDatagram, Check: checkXfer})
 	pbt.RegisterEnum(pbt.Enum[xferCase]{Name: "paced", Each: eachPaced, Check: checkXfer})
